@@ -82,7 +82,20 @@ type summary struct {
 	MaxTasks     int
 	Samples      []any
 	WallS        float64
+	NextIdx      int
 	fails        []json.RawMessage
+}
+
+// transientDeath recognises a worker killed by a momentary shortage of
+// operating-system resources (not by the code under test and not by the
+// harness): the run is resumed instead of failing the whole check.
+func transientDeath(stderr []byte) bool {
+	for _, pat := range []string{"failed to create new OS thread", "resource temporarily unavailable", "Resource temporarily unavailable", "fork/exec", "errno=11", "cannot allocate memory", "newosproc"} {
+		if bytes.Contains(stderr, []byte(pat)) {
+			return true
+		}
+	}
+	return false
 }
 
 func newSummary() *summary {
@@ -239,6 +252,7 @@ func cmdCheck(args []string) {
 		go func(i int, procs string) {
 			defer wg.Done()
 			var so []byte
+			retries := 0
 			for from := 0; from < detN; {
 				part, se, err := runWorker(bin, cfg.MemLimitMB, []string{"GOMAXPROCS=" + procs}, "hashes", "-prop", *prop, "-tier", *tier, "-seed", fmt.Sprint(seed), "-from", fmt.Sprint(from), "-to", fmt.Sprint(detN))
 				so = append(so, part...)
@@ -250,6 +264,13 @@ func cmdCheck(args []string) {
 					done := bytes.Count(part, []byte("\n"))
 					so = append(so, []byte(fmt.Sprintf("%d killed-by-memory-limit\n", from+done))...)
 					from += done + 1
+					continue
+				}
+				if transientDeath(se) && retries < 3 {
+					retries++
+					so = nil
+					from = 0
+					time.Sleep(2 * time.Second)
 					continue
 				}
 				fmt.Fprintf(os.Stderr, "determinism sample worker failed: %v\n%s\n", err, tail(se, 4000))
@@ -282,6 +303,7 @@ func cmdCheck(args []string) {
 			defer wg.Done()
 			deadline := time.Now().Add(budget)
 			startIdx := k
+			transient := 0
 			acc := newSummary()
 			for attempt := 0; ; attempt++ {
 				outFile := filepath.Join(scratch, fmt.Sprintf("sum-%d-%d.json", k, attempt))
@@ -307,6 +329,20 @@ func cmdCheck(args []string) {
 					break
 				}
 				// the worker died
+				if transientDeath(se) && transient < 3 && s.NextIdx >= 0 {
+					// the machine ran out of threads, processes or memory for a moment:
+					// resume after the last flushed summary (nothing is counted twice)
+					transient++
+					acc.Reach["harness.worker-resumed-after-transient-resource-failure"]++
+					if s.NextIdx > startIdx {
+						startIdx = s.NextIdx
+					}
+					time.Sleep(2 * time.Second)
+					if time.Until(deadline) < time.Second {
+						break
+					}
+					continue
+				}
 				if cfg.MemLimitMB == 0 || attempt > 2000 {
 					crashes[k] = fmt.Sprintf("worker %d: %v\n%s", k, err, tail(se, 6000))
 					return
